@@ -696,6 +696,30 @@ func (w *World) unitDone(cs *connState, buf []byte, ret int, err sipsp.ErrorHdr,
 		w.st.unit(cs, &ur)
 	}
 	cs.results = append(cs.results, ur)
+	// C04 check only, after a SUCCESS verdict (after an error the object is dead until reset):
+	// a receiver that forgets to reset and calls the finished object again (at the
+	// returned offset, or further on - e.g. after skipping a body itself) must still get offsets
+	// that obey the rules, or an error verdict. The object is discarded / reset afterwards anyway.
+	if definitive && err == sipsp.ErrHdrOk && w.mon == (Monitors{}) && cs.c.Cfg.Kind != "uri" && !(cs.drv.Accumulates() && cs.drv.Continues(err)) {
+		// (one call only: what it leaves behind is not a finished object any more)
+		for _, o2 := range [...]int{ret + (len(buf)-ret+1)/2} {
+			if o2 < ret || o2 > len(buf) {
+				continue
+			}
+			r2, e2, pan := guarded(cs.drv, buf, o2, cs.eof)
+			if pan != "" {
+				w.fail(cs, "C04", "panic", fmt.Sprintf("%s called again after verdict %d %q (no reset) at offset %d panicked: %s", cs.c.Cfg.Kind, err, err, o2, pan))
+				return
+			}
+			if r2 < 0 || r2 > len(buf) || (r2 < o2 && !sut.IsError(e2)) {
+				w.fail(cs, "C04", "offset-after-finish", fmt.Sprintf("%s called again after verdict %d %q (no reset) with offset %d on a buffer of %d returned (%d,%d %q)", cs.c.Cfg.Kind, err, err, o2, len(buf), r2, e2, e2))
+				return
+			}
+			if w.st != nil {
+				w.st.probe("re-call-after-finish")
+			}
+		}
+	}
 }
 
 // finish runs the end-of-history checks.
